@@ -14,6 +14,7 @@ RECURSIVE Words(_, _)
 Words(alpha, n) == IF n = 0 THEN {<<>>} ELSE LET w == Words(alpha, n - 1) IN w \cup {Append(u, c) : u \in {v \in w : Len(v) = n - 1}, c \in alpha}
 Abc == {97, 98, 99}
 Mix == {97, 65, 49, 95, 32, 10}                       \* a A 1 _ space newline
+ClsAlpha == {97, 98, 99, 66, 49, 95, 32, 45}          \* a b c B 1 _ space -   (character-class family)
 \* canonical order of a subject set: by length, then lexicographic (the driver receives the list)
 RECURSIVE SeqLess(_, _)
 SeqLess(u, v) == IF Len(u) # Len(v) THEN Len(u) < Len(v)
@@ -23,6 +24,7 @@ LOCAL SX2 == INSTANCE SequencesExt
 Ordered(S) == SX2!SetToSortSeq(S, SeqLess)
 SubjectSets == [abc2 |-> Ordered(Words(Abc, 2)), abc3 |-> Ordered(Words(Abc, 3)), abc4 |-> Ordered(Words(Abc, 4)), abc5 |-> Ordered(Words(Abc, 5)),
                 aAb4 |-> Ordered(Words({97, 65, 98}, 4)),                \* both cases of one letter: case-insensitive backreferences
+                cls1 |-> Ordered(Words(ClsAlpha, 1)), cls2 |-> Ordered(Words(ClsAlpha, 2)),
                 mix2 |-> Ordered(Words(Mix, 2)), mix3 |-> Ordered(Words(Mix, 3)), mix4 |-> Ordered(Words(Mix, 4))]
 SubjectsOf(name) == SubjectSets[name]
 
@@ -60,22 +62,64 @@ TreesTop(n, atoms, us, top) ==
 
 \* backreference family: a group, then \1 (also quantified, also across an alternation, also inside a lookaround)
 BrefBodies == {Chr(97), Rep(Chr(97), 0, -1, TRUE), Rep(Chr(97), 1, -1, FALSE), Alt(Chr(97), Chr(98)), AnyC, Eps, Alt(Chr(97), Eps), Rep(ClsAB, 1, 2, TRUE)}
-BrefTrees ==
-  UNION {{Cat(Grp(1, b), Bref(1)), Cat(Grp(1, b), Rep(Bref(1), 0, -1, TRUE)), Cat(Grp(1, b), Rep(Bref(1), 1, -1, FALSE)),
+BrefShapes(b) ==
+         {Cat(Grp(1, b), Bref(1)), Cat(Grp(1, b), Rep(Bref(1), 0, -1, TRUE)), Cat(Grp(1, b), Rep(Bref(1), 1, -1, FALSE)),
           Cat(Rep(Grp(1, b), 0, -1, TRUE), Bref(1)), Cat(Rep(Grp(1, b), 0, 1, TRUE), Bref(1)), Cat(Alt(Grp(1, b), Chr(98)), Bref(1)),
           Cat(Grp(1, b), Cat(Chr(98), Bref(1))), Cat(La(FALSE, Grp(1, b)), Bref(1)), Cat(Grp(1, b), La(TRUE, Bref(1))),
           Cat(Grp(1, b), Lb(FALSE, Bref(1))), Cat(Chr(97), Lb(FALSE, Cat(Bref(1), Grp(1, b)))), Rep(Cat(Grp(1, b), Bref(1)), 0, -1, TRUE),
-          Grp(1, Cat(b, Bref(1))), Rep(Alt(Grp(1, b), Bref(1)), 2, 2, TRUE)} : b \in BrefBodies}
+          Grp(1, Cat(b, Bref(1))), Rep(Alt(Grp(1, b), Bref(1)), 2, 2, TRUE)}
+BrefTrees == UNION {BrefShapes(b) : b \in BrefBodies}
+\* backreference family, second part.  The position of the reference relative to its group is a dimension of its own (after it: above;
+\* inside it, before or behind the body; in front of it), and so is what FOLLOWS the construct: only a continuation that can fail
+\* makes the matcher come back into the group / the reference after the group has closed once (the capture it then sees must be the
+\* one of the path being tried, not of the abandoned one).  Every shape is followed by `b` and by `ab`.
+BrefShapesIn(b) == {Grp(1, Cat(Bref(1), b)), Cat(Bref(1), Grp(1, b))}
+BrefSuffixes == {Chr(98), Cat(Chr(97), Chr(98))}
+BrefKTrees == UNION {BrefShapesIn(b) \cup {Cat(t, k) : t \in BrefShapes(b) \cup BrefShapesIn(b), k \in BrefSuffixes} : b \in BrefBodies}
 
 \* capture-reset family (three operator nodes, needed already in the quick tier): a group that takes part in one iteration
 \* of an enclosing quantifier and not in the next must read undefined afterwards
+ResetQuants == {<<0, -1, TRUE>>, <<1, -1, TRUE>>, <<0, -1, FALSE>>, <<1, -1, FALSE>>, <<2, 2, TRUE>>, <<1, 2, TRUE>>, <<2, -1, TRUE>>, <<0, 2, FALSE>>}
 ResetTrees ==
   UNION {{Rep(Alt(Grp(1, x), y), q[1], q[2], q[3]), Rep(Alt(y, Grp(1, x)), q[1], q[2], q[3]), Rep(Cat(Rep(Grp(1, x), 0, 1, TRUE), y), q[1], q[2], q[3])}
-         : x \in AtomsReduced, y \in AtomsReduced,
-           q \in {<<0, -1, TRUE>>, <<1, -1, TRUE>>, <<0, -1, FALSE>>, <<1, -1, FALSE>>, <<2, 2, TRUE>>, <<1, 2, TRUE>>, <<2, -1, TRUE>>, <<0, 2, FALSE>>}}
-\* families given as explicit tree sets: [name, trees, flag sets]
-SpecialFamilies == <<[name |-> "bref", trees |-> BrefTrees, fls |-> {NoFlags, Flags(TRUE, FALSE, FALSE)}],
-                     [name |-> "reset3", trees |-> ResetTrees, fls |-> {NoFlags}]>>
+         : x \in AtomsReduced, y \in AtomsReduced, q \in ResetQuants}
+\* capture-reset family, second part.  RepeatMatcher clears every group whose left parenthesis lies inside the quantified atom, WHEREVER
+\* inside: directly in the alternative, nested in another group, under an inner quantifier, in the body of a lookahead or a lookbehind
+\* (positive: the captures survive the assertion; negative: they never do).  Dimensions: the wrapper around the group x, the consumer z
+\* behind it, the other alternative y, the position of the wrapped group among its sibling groups (only / first / last / middle: an
+\* implementation that clears a numeric interval of groups is right by accident in the middle), the quantifier.
+WrapG(w, g) == CASE w = 1 -> g                  [] w = 2 -> La(FALSE, g)       [] w = 3 -> Lb(FALSE, g)   [] w = 4 -> Grp(0, g)
+                 [] w = 5 -> Rep(g, 0, 1, TRUE) [] w = 6 -> La(TRUE, g)        [] w = 7 -> Lb(TRUE, g)    [] w = 8 -> Ncg(g)
+ResetWGrid == IF Quick THEN [x |-> {Chr(97), AnyC}, z |-> {Chr(97), Chr(98)}, y |-> {Chr(98)}, w |-> 1..7, sh |-> 1..4,
+                             q |-> {<<0, -1, TRUE>>, <<1, -1, FALSE>>, <<2, 2, TRUE>>, <<1, 2, TRUE>>, <<2, -1, TRUE>>, <<0, 2, FALSE>>}]
+              ELSE [x |-> {Chr(97), AnyC, Eps}, z |-> {Chr(97), Chr(98), AnyC}, y |-> {Chr(97), Chr(98), AnyC}, w |-> 1..8, sh |-> 1..6, q |-> ResetQuants]
+ResetWTrees ==
+  LET G == ResetWGrid
+      Shapes(br, y) == LET all == <<Alt(br, y), Alt(y, br), Alt(br, Grp(0, y)), Alt(Grp(0, y), br),
+                                Alt(Grp(0, y), Alt(br, Grp(0, Chr(99)))), Alt(Grp(0, Chr(99)), Alt(Grp(0, y), br))>>
+                   IN {all[k] : k \in G.sh}
+  IN UNION {{Renumber(Rep(t, q[1], q[2], q[3])) : t \in Shapes(Cat(WrapG(w, Grp(0, x)), z), y)} : x \in G.x, z \in G.z, y \in G.y, w \in G.w, q \in G.q}
+
+\* character-class family.  A class is the UNION of its members, whatever their order and however they relate: the same member twice,
+\* disjoint, touching, overlapping, one contained in the other (at its start, inside, at its end), single units, ranges and the six
+\* class escapes, plain and negated, with and without the i flag.  Subjects: one representative unit of every kind the members tell
+\* apart (the three letters, an upper-case letter, a digit, the underscore, white space, punctuation).
+ClsMembers == {Rng(97, 97), Rng(98, 98), Rng(99, 99), Rng(97, 98), Rng(98, 99), Rng(97, 99), Rng(65, 67), Rng(49, 49), Rng(45, 45),
+               ShItem(100), ShItem(68), ShItem(119), ShItem(87), ShItem(115), ShItem(83)}                                        \* 15
+ClsMembers3 == IF Quick THEN {Rng(98, 98), Rng(97, 98), Rng(97, 99), ShItem(100)}
+               ELSE {Rng(98, 98), Rng(97, 98), Rng(98, 99), Rng(97, 99), Rng(65, 67), ShItem(100), ShItem(119), ShItem(83)}
+ClsItemSeqs == {<<p>> : p \in ClsMembers} \cup {<<p, q>> : p \in ClsMembers, q \in ClsMembers}
+               \cup {<<p, q, r>> : p \in ClsMembers3, q \in ClsMembers3, r \in ClsMembers3}
+ClsTrees == LET cs == {Cls(neg, its) : neg \in BOOLEAN, its \in ClsItemSeqs}
+            IN IF Quick THEN cs ELSE cs \cup {Rep(c, 1, -1, TRUE) : c \in cs}
+\* families given as explicit tree sets: [name, trees, flag sets, subject set without / with the i flag]
+BrefSubs == IF Quick THEN "abc4" ELSE "abc5"
+IFlag == Flags(TRUE, FALSE, FALSE)
+SpecialFamilies == <<[name |-> "bref", trees |-> BrefTrees, fls |-> {NoFlags, IFlag}, subs |-> BrefSubs, isubs |-> "aAb4"],
+                     [name |-> "reset3", trees |-> ResetTrees, fls |-> {NoFlags}, subs |-> BrefSubs, isubs |-> "aAb4"],
+                     [name |-> "brefk", trees |-> BrefKTrees, fls |-> {NoFlags, IFlag}, subs |-> BrefSubs, isubs |-> "aAb4"],
+                     [name |-> "resetw", trees |-> ResetWTrees, fls |-> {NoFlags}, subs |-> "abc4", isubs |-> "aAb4"],
+                     [name |-> "cls", trees |-> ClsTrees, fls |-> {NoFlags, IFlag}, subs |-> "cls2", isubs |-> "cls2"]>>
 
 \* flag sets worth trying on a tree: a flag is added only where a node it acts on occurs
 HasLetters(a) == Kinds(a) \cap {"chr", "cls", "bref"} # {}
@@ -94,8 +138,8 @@ Families ==
          Fam("full2", 2, AtomsFull, UAll, "abc4", FALSE), Fam("red2", 2, AtomsReduced, UAll, "abc5", FALSE),
          Fam("red3", 3, AtomsReduced, URep, "abc4", FALSE),
          Fam("mix0", 0, AtomsMix, UAll, "mix4", TRUE), Fam("mix1", 1, AtomsMix, UAll, "mix3", TRUE)>>
-BrefSubs == IF Quick THEN "abc4" ELSE "abc5"
-UsedSubjectSets == {Families[k].subs : k \in 1..Len(Families)} \cup {BrefSubs, "aAb4"}
+UsedSubjectSets == {Families[k].subs : k \in 1..Len(Families)}
+                   \cup UNION {{SpecialFamilies[j].subs, SpecialFamilies[j].isubs} : j \in 1..Len(SpecialFamilies)}
 
 \* ---------------- Enum ------------------------------------------------------------------------
 VARIABLES ph, cur, rec_i
@@ -112,7 +156,7 @@ EmitPattern == /\ ph = "fam"
                   THEN \E t \in SpecialFamilies[cur.top].trees : \E f \in SpecialFamilies[cur.top].fls :
                          /\ ph' = "pat" /\ UNCHANGED rec_i
                          /\ cur' = [kind |-> "pat", fam |-> SpecialFamilies[cur.top].name, ast |-> t, src |-> Render(t), fl |-> f,
-                                    subs |-> IF f.i THEN "aAb4" ELSE BrefSubs]
+                                    subs |-> IF f.i THEN SpecialFamilies[cur.top].isubs ELSE SpecialFamilies[cur.top].subs]
                   ELSE LET F == Families[cur.k] IN
                        \E t0 \in TreesTop(F.n, F.atoms, F.us, cur.top) :
                          LET t == Renumber(t0) IN
@@ -141,8 +185,9 @@ AllLazy(a, g) == IF a.t = "rep" THEN [a EXCEPT !.g = g, !.x = <<AllLazy(a.x[1], 
                  ELSE a
 SeqSet(q) == {q[k] : k \in 1..Len(q)}
 \* small families are checked on more subjects than the big ones
-LawSubjects(fam, f) == IF fam \in {"mix0", "mix1"} \/ f.i THEN SubjectsOf("mix2")
-                       ELSE IF fam \in {"full0", "full1", "bref", "reset3"} THEN SubjectsOf("abc3") ELSE SubjectsOf("abc2")
+LawSubjects(fam, f) == IF fam = "cls" THEN SubjectsOf("cls1")
+                       ELSE IF fam \in {"mix0", "mix1"} \/ f.i THEN SubjectsOf("mix2")
+                       ELSE IF fam \in {"full0", "full1", "bref", "reset3", "brefk"} THEN SubjectsOf("abc3") ELSE SubjectsOf("abc2")
 SyntaxLaw(a) ==
   LET src == Render(a)  p == Parse(src) IN
   /\ WellNumbered(a)
